@@ -262,7 +262,7 @@ fn from_rmsg(m: &RMsg) -> M {
     }
 }
 macro_rules! reg_like_actor {
-    ($name:ident, $msg:ty, $internal:path, $conv:ident) => {
+    ($name:ident, $msg:ty, $internal:ident, $conv:ident) => {
         impl $name {
             fn emit(cmds: Vec<RCmd>, o: &mut Out<Self>) {
                 for c in cmds {
@@ -315,7 +315,18 @@ macro_rules! reg_like_actor {
         }
     };
 }
-reg_like_actor!(RegScript, RMsg, RegisterMsg::Internal, from_rmsg);
+/// Script messages without an id inside travel as client-protocol messages (so that Put / Get /
+/// PutOk / GetOk reach the wrapped servers too), the others as `Internal`.
+fn to_rmsg(m: M) -> RMsg {
+    match (m.who, m.tag) {
+        (None, 0) => RegisterMsg::Put(7, 'p'),
+        (None, 1) => RegisterMsg::Get(8),
+        (None, 2) => RegisterMsg::PutOk(9),
+        (None, 3) => RegisterMsg::GetOk(10, 'g'),
+        _ => RegisterMsg::Internal(m),
+    }
+}
+reg_like_actor!(RegScript, RMsg, to_rmsg, from_rmsg);
 
 #[derive(Clone, Debug)]
 pub struct WORegScript(pub Arc<Table>);
@@ -330,7 +341,16 @@ fn from_wmsg(m: &WMsg) -> M {
         WORegisterMsg::GetOk(_, _) => M { tag: 3, who: None },
     }
 }
-reg_like_actor!(WORegScript, WMsg, WORegisterMsg::Internal, from_wmsg);
+fn to_wmsg(m: M) -> WMsg {
+    match (m.who, m.tag) {
+        (None, 0) => WORegisterMsg::Put(7, 'p'),
+        (None, 1) => WORegisterMsg::Get(8),
+        (None, 2) => WORegisterMsg::PutOk(9),
+        (None, 3) => WORegisterMsg::GetOk(10, 'g'),
+        _ => WORegisterMsg::Internal(m),
+    }
+}
+reg_like_actor!(WORegScript, WMsg, to_wmsg, from_wmsg);
 
 /// Reference scripted client: sends its script, one message per received message, in order.
 #[derive(Clone, Debug)]
